@@ -173,16 +173,15 @@ Definition coherent (c: sctx) (e: eff) : Prop :=
   (if c.(s_fon) then c.(r_on) = e.(e_on) else c.(s_on) = e.(e_on)) /\
   (if c.(s_fba) then c.(r_ba) = e.(e_ba) else c.(s_ba) = e.(e_ba)).
 
-Lemma guard_eq od p raw packed : nan_ok (p, (raw, packed)) = true ->
-  guard od p raw = Some (negb (od && equals_default p raw)).
+Lemma guard_eq od p raw : guard od p raw = negb (od && equals_default p raw).
 Proof.
-  unfold nan_ok, guard, equals_default. cbn [fst snd]. destruct od; cbn; [|reflexivity].
-  destruct (default_value p) as [[]|]; try reflexivity. intros ->. reflexivity.
+  unfold guard, equals_default. destruct od; cbn; [|reflexivity].
+  destruct (default_value p) as [[]|]; reflexivity.
 Qed.
 
-Lemma guarded_eq od p raw packed l : nan_ok (p, (raw, packed)) = true ->
+Lemma guarded_eq od p raw l :
   guarded (guard od p raw) l = Some (if od && equals_default p raw then [] else l).
-Proof. intros H. rewrite (guard_eq _ _ _ _ H). unfold guarded. destruct (od && equals_default p raw); reflexivity. Qed.
+Proof. rewrite guard_eq. unfold guarded. destruct (od && equals_default p raw); reflexivity. Qed.
 
 Lemma py_eq_none_l d : py_eq PNone d = is_none d.
 Proof. destruct d; reflexivity. Qed.
@@ -213,9 +212,8 @@ Proof.
   intros Hc Hok Hom. pose proof (key_kw_spec c e (fst r) Hc) as Hk.
   destruct Hc as (Hod & Hon & _).
   destruct r as [p [raw packed]].
-  unfold row_ok in Hok. apply andb_true_iff in Hok. destruct Hok as [Hok Hnan].
-  unfold emit_kw, project_row, plain_entry, plainv, dropped, none_ok in *; cbn [fst snd] in *.
-  rewrite Hom, Hk. cbn [orb]. rewrite !(guarded_eq _ _ _ packed) by exact Hnan. rewrite <- Hod.
+  unfold emit_kw, project_row, plain_entry, plainv, dropped, row_ok in *; cbn [fst snd] in *.
+  rewrite Hom, Hk. cbn [orb]. rewrite !guarded_eq. rewrite <- Hod.
   destruct (nullable p) eqn:En; cbn [andb] in *.
   - destruct (is_none raw) eqn:Enone; cbn [andb negb orb] in *.
     + (* raw is None *)
@@ -253,8 +251,7 @@ Lemma emit_lit_spec c e r :
 Proof.
   intros (Hod & Hon & Hba) Hok Hom Hnt Hnn Hal Hsod.
   destruct r as [p [raw packed]].
-  unfold row_ok in Hok. apply andb_true_iff in Hok. destruct Hok as [Hok _].
-  unfold emit_lit, project_row, plain_entry, plainv, dropped, none_ok in *; cbn [fst snd] in *.
+  unfold emit_lit, project_row, plain_entry, plainv, dropped, row_ok in *; cbn [fst snd] in *.
   rewrite Hom, <- Hod, Hsod. cbn [orb andb]. rewrite orb_false_r.
   assert (Hkey: key_lit c p = spec_key e p).
   { unfold key_lit, spec_key, has_alias in *. destruct (p_alias p); [|reflexivity].
@@ -392,18 +389,19 @@ Proof.
   unfold project_statement in H. rewrite d14_model, d14_spec in H. discriminate.
 Qed.
 
-(* a NaN default under omit_default: `not isnan(value)` is evaluated on None *)
+(* a NaN default under omit_default: only a float NaN is the default; None and other values stay *)
 Definition nan_opts : opts :=
   {| o_call := None; o_cfgd := None; o_cfg := {| n_on := U; n_od := T; n_ba := U |}; o_dd := None; o_sort := false;
      o_fon := false; o_fba := false; o_fdl := false; o_fcx := false; o_kon := None; o_kba := None |}.
 Definition nan_fields : list fplan :=
-  [ {| p_name := "m"; p_alias := None; p_tynull := true; p_trivial := true; p_default := DVal PNaN; p_omit := false |} ].
-Definition nan_vals : list fval := [(PNone, PNone)].
+  [ {| p_name := "m"; p_alias := None; p_tynull := true; p_trivial := true; p_default := DVal PNaN; p_omit := false |};
+    {| p_name := "n"; p_alias := None; p_tynull := true; p_trivial := true; p_default := DVal PNaN; p_omit := false |};
+    {| p_name := "s"; p_alias := None; p_tynull := true; p_trivial := true; p_default := DVal PNaN; p_omit := false |} ].
+Definition nan_vals : list fval := [(PNone, PNone); (PNaN, PNaN); (PStr "q", PStr "q")].
 
-Theorem nan_default_refuted :
-  kw_ok nan_opts = true /\ vals_ok_weak nan_fields nan_vals = true /\ flag_defaults_ok nan_opts = true /\
-  to_dict_model nan_opts nan_fields nan_vals = None /\
-  project (eff_of nan_opts) nan_fields nan_vals (plain_out nan_fields nan_vals) = [("m", PNone)].
+Lemma nan_default_example :
+  kw_ok nan_opts = true /\ vals_ok nan_fields nan_vals = true /\ flag_defaults_ok nan_opts = true /\
+  to_dict_model nan_opts nan_fields nan_vals = Some [("m", PNone); ("s", PStr "q")].
 Proof. repeat split; reflexivity. Qed.
 
 (* the corner is exactly D14: outside flag_defaults_ok the body still projects, but with the
